@@ -428,6 +428,12 @@ func (o *c13Oracle) post(i *IRCServer, idx int, e ircgen.Entry, outs []out, pan 
 			if svc {
 				continue
 			}
+			// a channel that existed before the entry has its operators: joining it never makes one
+			if qc.ops[mk] {
+				if f := fail("chanop-by-joining-existing-channel", "session %s joined the existing channel %s and is channel operator there without ever being given +o", mk, pc.name); f != nil {
+					return f
+				}
+			}
 			restr := ""
 			for _, r := range "ikx" {
 				if strings.ContainsRune(pc.modes, r) {
@@ -473,6 +479,24 @@ func (o *c13Oracle) post(i *IRCServer, idx int, e ircgen.Entry, outs []out, pan 
 				}
 				if !actor.lastSolved.IsZero() && now.Sub(actor.lastSolved) < time.Minute {
 					captchaOK = true // documented grace period after a solved captcha
+				}
+				// the grace period also starts inside one JOIN: a valid captcha accepted for an
+				// earlier +x channel of the same target list covers the later ones
+				if len(line.Params) > 1 {
+					ks := strings.Split(line.Params[1], ",")
+					for cj, cname := range strings.Split(line.Params[0], ",") {
+						lc := strings.ToLower(cname)
+						if lc == cn {
+							break
+						}
+						ec, eq := pre.chans[lc], post.chans[lc]
+						if ec == nil || eq == nil || cj >= len(ks) {
+							continue
+						}
+						if strings.Contains(ec.modes, "x") && !strings.Contains(ec.modes, "i") && !actor.invited[lc] && eq.members[actorKey] && c13TokenValid(pre.secret, ks[cj], now) {
+							captchaOK = true
+						}
+					}
 				}
 			}
 			// bans (anchored matching of the stored expressions: a subset of what the server matches)
